@@ -134,7 +134,8 @@ def random_units(rnd, L, lattice_period_units=True):
             "t_scale": rnd.choice(["tcb", "utc", "tdb"]), "tref_scale": rnd.choice(["tcb", "utc", "tt"]),
             # how the prior object is made: parameter by parameter, or through JokerPrior.default(sigma_K0=, P0=, sigma_v=, s=)
             # whenever the configuration is one that builder can express (default K prior, no cap, zero means of K and v_i)
-            "builder": rnd.choice(["explicit", "default"])}
+            "builder": rnd.choice(["explicit", "default"]),
+            "err_units": [rnd.choice(["km/s", "m/s"]) for _ in range(3)]}
 
 
 # ----------------------------------------------------------------------------------------------- building real objects
@@ -159,7 +160,9 @@ def build(g, ua, jitter_kind="sampled"):
         # every source may come in its own velocity unit; the merged data set takes the first source's
         sdu = du if j == 0 else U(ua.get("src_units", [ua["data"]] * (noff + 1))[j])
         y = (np.array([g["y"][n] for n in idx], dtype=float) * kms).to(sdu)
-        err = (np.sqrt(np.array([g["sig2"][n] for n in idx], dtype=float)) * kms).to(sdu)
+        # the uncertainties may be declared in another (equivalent) unit than the velocities of the same source
+        eu = U(ua["err_units"][j]) if ua.get("err_units") else sdu
+        err = (np.sqrt(np.array([g["sig2"][n] for n in idx], dtype=float)) * kms).to(eu)
         if noff == 0:
             tref = Time(T0, format="mjd", scale="tcb")
             if ua.get("tref_scale", "tcb") != "tcb":
